@@ -162,6 +162,63 @@ func (e *env) confirm() (ok bool, sc scanResult) {
 	}
 }
 
+// awaitReturn waits until the call returned. It reports hung=true when instead the
+// whole process became stable (stop-the-world dump: every goroutine parked on a
+// channel operation) with the call still blocked: nothing but the harness can
+// ever wake it.
+func (e *env) awaitReturn(call *callState) (returned, hung bool) {
+	var start time.Time
+	for i := 0; ; i++ {
+		if isClosed(call.ret) {
+			return true, false
+		}
+		if i < 3000 {
+			runtime.Gosched()
+			continue
+		}
+		if start.IsZero() {
+			start = time.Now()
+		}
+		if i%20 == 0 {
+			if sc := scan(); sc.stable && !isClosed(call.ret) {
+				return false, true
+			}
+		}
+		if time.Since(start) > watchdog {
+			return false, false
+		}
+		time.Sleep(50 * time.Microsecond)
+	}
+}
+
+// hang records a call that is still blocked in a stable process, then ends it by
+// cancelling the caller's context. ok=false: the run must stop.
+func (e *env) hang(call *callState, cancel context.CancelFunc) (ok bool) {
+	e.m.mu.Lock()
+	allFin := call.started >= call.s.N && call.finished == call.started
+	events := make([]string, len(call.events))
+	for i, ev := range call.events {
+		events[i] = ev.String()
+	}
+	e.m.mu.Unlock()
+	if !allFin {
+		e.timeout("process stable, call blocked, but a harness dial has not finished (harness deadlock)", call)
+		return false
+	}
+	e.bad++
+	call.hung = true
+	e.c.Violate("hang|all-dials-finished", map[string]any{
+		"schedule": call.s, "method": methodNames[call.s.Method], "events": events,
+		"note": "every dial returned, every goroutine of the process is parked, the caller's context is alive and the resolver call has not returned",
+	})
+	e.cancelCall(call, cancel)
+	if !waitFor(func() bool { return isClosed(call.ret) }) {
+		e.timeout("hung call did not return after cancellation", call)
+		return false
+	}
+	return true
+}
+
 // invoke runs the resolver method in its own goroutine.
 func (e *env) invoke(call *callState, ctx context.Context, res dcs.Resolver, list dcs.List) {
 	go func() {
@@ -272,7 +329,13 @@ func (e *env) runScripted(s *sched) {
 	}
 	if !isClosed(call.ret) && len(s.Order) == s.N && s.N > 0 {
 		// every dial was released and none blocks: the call must return by itself
-		if !waitFor(func() bool { return isClosed(call.ret) }) {
+		returned, hung := e.awaitReturn(call)
+		switch {
+		case hung:
+			if !e.hang(call, cancel) {
+				return
+			}
+		case !returned:
 			e.timeout("call did not return after all dials completed", call)
 			return
 		}
@@ -487,8 +550,8 @@ func (e *env) judge(call *callState, sc scanResult) {
 					var got []int
 					for _, sub := range u.Unwrap() {
 						for _, d := range call.dials {
-							if contains(sub, d) {
-								got = append(got, d.idx)
+							if contains(sub, d) && (len(got) == 0 || got[len(got)-1] != d.idx) {
+								got = append(got, d.idx) // a combined failure contributes several flattened entries
 							}
 						}
 					}
@@ -551,7 +614,13 @@ func (e *env) runStressBatch(scheds []*sched) {
 	var calls []*callState
 	for _, r := range rs {
 		r := r
-		if !waitFor(func() bool { return isClosed(r.call.ret) }) {
+		returned, hung := e.awaitReturn(r.call)
+		switch {
+		case hung:
+			if !e.hang(r.call, r.cancel) {
+				return
+			}
+		case !returned:
 			e.timeout("stress call did not return", r.call)
 			return
 		}
@@ -565,11 +634,14 @@ func (e *env) runStressBatch(scheds []*sched) {
 }
 
 func runC42(c *mon.Ctx) {
-	c.Rule("dcs.Plain Primary/MediaOnly/CDN with a harness DialFunc; every dial's outcome (S success, F dial error, H connection whose handshake write fails, " +
+	c.Rule("dcs.Plain Primary/MediaOnly/CDN with a harness DialFunc; every dial's outcome (S success, F dial error, J/M dial error that is itself an errors.Join x2 / multierr x3 combination, " +
+		"H connection whose handshake write fails, K like H and Close() of that connection also fails, " +
 		"X connection to an option with an unparsable secret, B blocks until its context is done, late success after the call returned) and the completion order are scheduled, " +
 		"the caller's context is cancelled at every position (incl. before the call). Scripted part: dials are parked in the fake dialer and released one by one; " +
 		"EXHAUSTIVE for 2..4 dials (2..5 in the thorough tier) over {S,F,H,B}^n x all completion orders x all cancellation positions, deduplicated by the canonical signature (release prefix up to the first " +
 		"success or the cancellation; later dials complete late), each with all 3 methods in the thorough tier, methods rotating over the schedules in the quick tier; random schedules for 5 dials with random protocol/obfuscation/ipv6/test/decoy options; " +
+		"every canonical schedule is run with single-error failures and with combined-error failure shapes (F->J/M, H->K; all shape variants in the thorough tier for <= 4 dials, one rotating variant otherwise); " +
+		"a call still blocked when every dial has returned and a stop-the-world dump shows every goroutine parked is hang|all-dials-finished; " +
 		"free-running stress batches of 8 concurrent calls under -race with random delays. Quiescence = all fake dials returned and the goroutine count is back at the pre-call baseline. " +
 		"distinct non-trivial = (method, canonical schedule, outcome) for scripted, (method, n, outcome, cancelled, #established, #late) for stress; only calls with >= 2 dials count.")
 	c.Assume("quiescence: runtime.NumGoroutine back at the baseline taken before the call means every goroutine spawned by connect has exited; " +
@@ -605,24 +677,45 @@ func runC42(c *mon.Ctx) {
 	}
 
 	// 1. exhaustive scripted core
-	total := 0
+	total, combined := 0, 0
 	for n := 2; n <= c.N(4, 5) && !stop(); n++ { // the thorough tier also enumerates 5 dials
 		list := enumerate(n)
 		c.Set(fmt.Sprintf("canonical_schedules_n%d", n), len(list))
+		fr := c.RandN("flavour", n)
 		for i, base := range list {
-			// thorough: every canonical schedule with each of the 3 methods; quick: methods rotate over the schedules
-			for method := 0; method < 3 && !stop(); method++ {
-				if c.Quick() && method != i%3 {
+			// thorough: every canonical schedule with each of the 3 methods; quick: methods rotate over the schedules.
+			// Failure shapes: variant 0 = single errors; 1..3 = combined errors (errors.Join x2 / multierr x3 dial errors,
+			// handshake write failure + failing Close). n <= 4: thorough runs all variants, quick variant 0 plus one
+			// rotating combined variant; n = 5 (thorough): variant 0 with all methods plus one rotating combined variant.
+			for v := 0; v < 4; v++ {
+				sv, ok := base, true
+				if v > 0 {
+					sv, ok = flavour(base, v, fr)
+				}
+				if !ok {
 					continue
 				}
-				s := *base
-				s.Method = method
-				e.runScripted(&s)
-				total++
+				rotating := v > 0 && (c.Quick() || n == 5)
+				if rotating && v != 1+i%3 {
+					continue
+				}
+				for method := 0; method < 3 && !stop(); method++ {
+					if (c.Quick() || rotating) && method != (i+v)%3 {
+						continue
+					}
+					s := *sv
+					s.Method = method
+					e.runScripted(&s)
+					total++
+					if v > 0 {
+						combined++
+					}
+				}
 			}
 		}
 	}
 	c.Set("scripted_exhaustive_calls", total)
+	c.Set("scripted_exhaustive_calls_with_combined_errors", combined)
 	lap("exhaustive")
 	if !stop() {
 		c.Exhaustive(true)
